@@ -23,7 +23,7 @@ META = dict(
     outside="float32 accumulation error; alignments with more than 3 unitary alignments (the kernel loop is per unitary alignment, independent)",
     stubs=["numba.njit = identity", "np float arrays = object arrays of z3 reals", "d_mat = one free symbol >= 0 per unit pair"],
     assumptions=["pair dissimilarities symmetric and >= 0", "delta_empty > 0"],
-    cfg_budget_s=dict(quick=200, thorough=1700),
+    cfg_budget_s=dict(quick=200, thorough=900),
 )
 
 
@@ -33,6 +33,7 @@ def configs(tier):
         for k in (1, 2):
             for cont in (False, True):
                 out.append(dict(key=f"hand-built,n={n},k={k},continuum={cont}", n=n, k=k, cont=cont, orders=3, cost=(2 ** n) ** k * 3))
+    out.append(dict(key="cache-consistency,n=3", kind="cache", n=3, cost=20))
     for s in [(2, 1), (2, 2), (1, 1, 1)]:
         for mode in ("best", "soft"):
             out.append(dict(key=f"returned-{mode},sizes={s}", sizes=list(s), mode=mode, dissim="abstract", backend="cbc", cost=500))
@@ -49,7 +50,66 @@ def configs(tier):
     return out
 
 
+def cache_harness(cfg, ns):
+    """multi-step use of the cached values: recomputing with another dissimilarity, replacing an n-tuple"""
+    al, co, Segment = ns.al, ns.co, ns.Segment
+    n = cfg["n"]
+
+    def h(ctx):
+        from sortedcontainers import SortedSet
+        de = ctx.fresh("de")
+        de2 = ctx.fresh("de2")
+        ctx.solver.add(de.e > 0, de2.e > 0)
+        cats = SortedSet(common.uid_label(i) for i in range(2 * n))
+        D1, t1 = common.make_abstract_dissim(ns, ctx, de, cats)
+        D2, t2 = common.make_abstract_dissim(ns, ctx, de2, cats)
+        t2.val = lambda i, j, _v=t1.val: _v(i, j) * 3 + (0 if int(i) == int(j) else 1)       # a different dissimilarity
+        D2.d_mat = lambda u1, u2: t2.val(int(u1[3]), int(u2[3]))
+        units = {(u, a): co.Unit(Segment(10 * u + a, 10 * u + a + 5), common.uid_label(u * n + a)) for u in range(2) for a in range(n)}
+        names = common.ANN[:n]
+        uas = [al.UnitaryAlignment([(names[a], units[(u, a)]) for a in range(n)]) for u in range(2)]
+        A = al.Alignment(uas)
+        rz = lambda m: dict(kind="cache", n=n, de=common.frs(mval(m, de)), de2=common.frs(mval(m, de2)), pairs={f"{i},{j}": common.frs(mval(m, v)) for (i, j), v in t1.D.items()})   # noqa: E731
+        ctx.notes["realize"] = rz
+        c2n = n * (n - 1) // 2
+
+        def ucost(u, val):
+            tot = 0
+            for a in range(n):
+                for b in range(a):
+                    tot = tot + val(u * n + a, u * n + b)
+            return tot / c2n
+        obls = []
+        try:
+            uas[0].disorder
+            obls.append(Obl("unitary disorder before any computation raises ValueError", False, rz))
+        except ValueError:
+            obls.append(Obl("unitary disorder before any computation raises ValueError", True, rz))
+        v1 = A.compute_disorder(D1)
+        w1 = (ucost(0, t1.val) + ucost(1, t1.val)) / 2
+        obls.append(Obl("first computation == definition", core.approx(v1, w1, w1), rz))
+        v2 = A.compute_disorder(D2)
+        w2 = (ucost(0, t2.val) + ucost(1, t2.val)) / 2
+        obls.append(Obl("recomputation with another dissimilarity == its definition", core.approx(v2, w2, w2), rz))
+        obls.append(Obl("alignment.disorder follows the last computation", core.approx(A.disorder, w2, w2), rz))
+        for u in range(2):
+            obls.append(Obl("carried unitary disorders follow the last computation", core.eq(uas[u].disorder, ucost(u, t2.val)), rz))
+        # replacing the n-tuple of a unitary alignment invalidates its carried disorder
+        uas[1].n_tuple = [(names[a], units[(0, a)]) for a in range(n)]
+        try:
+            uas[1].disorder
+            obls.append(Obl("replacing an n-tuple invalidates the carried disorder", False, rz))
+        except ValueError:
+            obls.append(Obl("replacing an n-tuple invalidates the carried disorder", True, rz))
+        v3 = uas[1].compute_disorder(D1)
+        obls.append(Obl("unitary recomputation after replacement == definition/nb-avg", core.approx(v3, ucost(0, t1.val), ucost(0, t1.val)), rz))
+        return obls
+    return h
+
+
 def harness(cfg, ns):
+    if cfg.get("kind") == "cache":
+        return cache_harness(cfg, ns)
     if "sizes" in cfg:
         return returned_harness(cfg, ns)
     n, k = cfg["n"], cfg["k"]
@@ -173,6 +233,8 @@ def returned_harness(cfg, ns):
 def replay(case):
     if case.get("kind") == "pipeline":
         return pipeline.replay_pipeline(case)
+    if case.get("kind") == "cache":
+        return _replay_cache(case)
     import itertools as it
     import numpy as np
     import pygamma_agreement as pa
@@ -228,3 +290,51 @@ def replay(case):
 
 # translator validation (shared): the repository's own test inputs through both builds
 tv_cases, tv_real, tv_sym, tv_compare_hook = pipeline.tv_cases, pipeline.tv_real, pipeline.tv_sym, pipeline.tv_compare_hook
+
+
+def _replay_cache(case):
+    import numpy as np
+    import pygamma_agreement as pa
+    from pygamma_agreement.alignment import UnitaryAlignment, Alignment
+    from pyannote.core import Segment
+    from sortedcontainers import SortedSet
+    n = case["n"]
+    de, de2 = float(Fraction(case["de"])), float(Fraction(case["de2"]))
+    nunits = 2 * n
+    cats = SortedSet(common.uid_label(i) for i in range(nunits))
+    M = np.zeros((nunits, nunits), dtype=np.float32)
+    for key, v in case["pairs"].items():
+        i, j = (int(x) for x in key.split(","))
+        M[i, j] = M[j, i] = float(Fraction(v))
+    M2 = M * 3 + (1 - np.eye(nunits, dtype=np.float32))
+    D1 = pa.PrecomputedCategoricalDissimilarity(cats, M / de, delta_empty=de)
+    D2 = pa.PrecomputedCategoricalDissimilarity(cats, M2 / de2, delta_empty=de2)
+    names = common.ANN[:n]
+    units = {(u, a): pa.Unit(Segment(10 * u + a, 10 * u + a + 5), common.uid_label(u * n + a)) for u in range(2) for a in range(n)}
+    uas = [UnitaryAlignment([(names[a], units[(u, a)]) for a in range(n)]) for u in range(2)]
+    A = Alignment(uas)
+    c2n = n * (n - 1) // 2
+
+    def ucost(u, MM):
+        return sum(float(MM[u * n + a, u * n + b]) for a in range(n) for b in range(a)) / c2n
+    bad = []
+
+    def close(a, b):
+        return abs(a - b) <= 1e-4 * max(1e-3, abs(b))
+    v1 = float(A.compute_disorder(D1))
+    if not close(v1, (ucost(0, M) + ucost(1, M)) / 2):
+        bad.append(f"first computation {v1}")
+    v2 = float(A.compute_disorder(D2))
+    w2 = (ucost(0, M2) + ucost(1, M2)) / 2
+    if not close(v2, w2) or not close(float(A.disorder), w2):
+        bad.append(f"after recomputation: returned {v2}, alignment.disorder {A.disorder}, definition {w2}")
+    for u in range(2):
+        if not close(float(uas[u].disorder), ucost(u, M2)):
+            bad.append(f"carried unitary disorder {uas[u].disorder} != {ucost(u, M2)}")
+    uas[1].n_tuple = [(names[a], units[(0, a)]) for a in range(n)]
+    try:
+        uas[1].disorder
+        bad.append("carried disorder survived the replacement of the n-tuple")
+    except ValueError:
+        pass
+    return dict(reproduced=bool(bad), detail="; ".join(bad[:3]))
